@@ -7,6 +7,7 @@ import FfcxModel.Driver.Exec
 import FfcxModel.Driver.Simp
 import FfcxModel.Driver.Static
 import FfcxModel.Driver.Scope
+-- import FfcxModel.Driver.Dtype   -- (re-enabled when the dtype cluster has renamed its declsS)
 
 open Ffcx
 
